@@ -307,12 +307,23 @@ func (sc *pageRankStrategyCalculator) GetBackgroundExecutionTimeout(perSizeClass
 	// class. This is used to obtain the most up-to-date value of
 	// the execution timeout in case of background runs.
 	largestSizeClass := sizeClasses[len(sizeClasses)-1]
+	largestSizeClassStats, ok := perSizeClassStatsMap[largestSizeClass]
+	if !ok {
+		// The set of size classes changed while the action was
+		// running. No statistics for the largest size class
+		// exist yet.
+		return originalTimeout
+	}
+	largestSizeClassMedianExecutionTime := getOutcomesFromPreviousExecutions(
+		largestSizeClassStats.PreviousExecutions,
+	).GetMedianExecutionTime()
+	if largestSizeClassMedianExecutionTime == nil {
+		return originalTimeout
+	}
 	return sc.getSmallerSizeClassExecutionParameters(
 		sizeClasses[sizeClassIndex],
 		largestSizeClass,
-		*getOutcomesFromPreviousExecutions(
-			perSizeClassStatsMap[largestSizeClass].PreviousExecutions,
-		).GetMedianExecutionTime(),
+		*largestSizeClassMedianExecutionTime,
 		originalTimeout,
 	).executionTimeout
 }
